@@ -26,11 +26,21 @@ tie:    hand-written model  <->  Array::operator()(int / index expression / rang
         are generated at random (9% of the range / stride arguments) and by a directed sweep: every rank 1..6 x every
         position x 7 empty selectors x every kind of neighbour selector, on passive rm/cm parents, strided receivers, active
         arrays and FixedArray parents, followed by members applied to the empty view.
-        ELEMENT ACCESS: operator() with only scalar arguments is dispatched separately (every argument passed exactly as
-        written, per position an int or end-k, const and non-const accessor) for Array<r,int> r = 1..6, active r = 1..3 and
-        FixedArray<int,false,..> 4 / 3x4 / 2x3x4 / 2x3x4x5; a directed sweep puts 0 / middle / last index (bounds-checked
-        build also n and -1) as int and as end-k into every position of objects with pairwise different extents, 7% of the
-        random operator() calls are element accesses.
+        ELEMENT ACCESS: operator() with only scalar arguments (its own accessor function per class x rank x const-ness in
+        Array.h / FixedArray.h; model elemAccess = sum of index*offset, fixedElemAccess = FixedArray's Horner form) is
+        dispatched separately (every argument passed exactly as written, per position an int or end-k, and ONE argument, in
+        any position, may be `end` arithmetic: end, end/k, k-end, k/end, (end-k)/m, ranks 1-2 more; harness/drv_views_el.h;
+        const and non-const accessor) for Array<r,int> r = 1..6, active Array r = 1..3, FixedArray<int,false,..> 4 / 3x4 /
+        3x3 / 2x3x4 / 2x3x4x5, and for objects of which only the element accessors are driven: FixedArray<int,false,..>
+        3x2x5x4 / 2x3x1x4x5 / 3x1x4x2x6x5 (op `efparent`) and ACTIVE FixedArray<double,true,..> 4 / 3x4 / 2x3x4 / 3x2x5x4 (op
+        `afparent`; rank 1 also operator[]).  A directed sweep puts 0 / middle / last index (bounds-checked build also n and
+        -1) as int, as end-k and through every compiled shape of `end` arithmetic into every position of every such object
+        (pairwise different extents), const and non-const; 7% of the random operator() calls on the other objects are
+        element accesses (half of them with one argument rewritten as `end` arithmetic), 9% of the random parents are
+        element-only objects.
+        PERMUTE OVERLOADS: permute(const Index*), permute(const ExpressionSize<Rank>&) (op permuteE) and permute(i0,i1,..)
+        (op permuteV, ranks 2..6; a -1 among the arguments raises invalid_dimension) of Array and FixedArray: a directed
+        sweep and 40% of the random permute calls.
         Two builds: default (admissible arguments only) and -DADEPT_BOUNDS_CHECKING (also a malformed stream that puts an
         out-of-range value in every argument position).
         Index expressions: an index, range end point or stride is k, end-k, or one of the compiled shapes of `end`
@@ -74,7 +84,10 @@ REQUIRED = ["C06_slice_addr", "C06_slice_rank", "C06_range_extent", "C06_subset_
             "C06_indexed_write_through", "C06_indexed_checked_rejects",
             "C06_endexpr_forms", "C06_endexpr_operand_order", "C06_endexpr_reversal", "C06_endexpr_midpoint_admissible",
             "C06_vexpr_entry", "C06_stride_expr_addr",
-            "C06_empty_view_canonical", "C06_nonempty_unchanged", "C06_reachable_canonical", "C06_isEmpty_iff_no_element"]
+            "C06_empty_view_canonical", "C06_nonempty_unchanged", "C06_reachable_canonical", "C06_isEmpty_iff_no_element",
+            "C06_elem_own_dimension", "C06_elem_addr", "C06_elem_unchecked_total", "C06_elem_checked_iff",
+            "C06_elem_is_rank0_slice", "C06_fixed_elem_addr", "C06_fixed_elem_unchecked_total", "C06_fixed_elem_checked_iff",
+            "C06_permute_args_addr"]
 H = os.path.join(vbuild.VERIF, "harness")
 DRIVERS = [os.path.join(H, f) for f in
            ["drv_views.cpp"] + ["drv_views_r%d%s.cpp" % (r, x) for r in (4, 5, 6) for x in ("", "i", "e")] +
@@ -82,7 +95,8 @@ DRIVERS = [os.path.join(H, f) for f in
             "drv_views_x4.cpp", "drv_views_x5.cpp", "drv_views_x6.cpp",
             "drv_views_idx.cpp", "drv_views_idx2a.cpp", "drv_views_idx2b.cpp", "drv_views_idx2c.cpp", "drv_views_idx2d.cpp",
             "drv_views_idx3.cpp", "drv_views_idx3r.cpp", "drv_views_idx3v.cpp", "drv_views_idx4.cpp",
-            "drv_views_w123.cpp", "drv_views_w456.cpp", "drv_views_wact.cpp"]]
+            "drv_views_w123.cpp", "drv_views_w456.cpp", "drv_views_wact.cpp",
+            "drv_views_ela.cpp", "drv_views_elb.cpp", "drv_views_elc.cpp", "drv_views_eld.cpp", "drv_views_ele.cpp"]]
 CORR = ("AdeptModel/Views.lean, AdeptModel/IndexedViews.lean <-> Array view-forming member functions and IndexedArray "
         "(harness/drv_views*.cpp)")
 SIG_EMPTY = "indexed-array-zero-extent-after-nonzero-leading-extent"
@@ -130,6 +144,9 @@ XSHAPES = ["(#-end)", "(end/#)", "(#/end)", "((end-#)/#)", "end", "(#+end)", "(#
            "(#-(end/#))", "((#*end)-#)", "((#-end)*#)", "(#/(end-#))", "(#-(#-end))", "((end-#)>#)", "(#<end)",
            "((end*end)/#)", "((end/#)+(end/#))"]
 XMENU = {1: 19, 2: 8, 3: 4, 4: 4, 5: 4, 6: 4}
+# ELEMENT access (only scalar arguments, harness/drv_views_el.h): the first ELMENU[r] shapes, ONE rich argument per call in any
+# position, for every kind of object
+ELMENU = {1: 19, 2: 8, 3: 5, 4: 5, 5: 5, 6: 5}
 VSHAPES = ["(#-v)", "(v*#)", "((end-v)/#)", "(v+v)", "(#+v)", "(#*v)", "(v/#)", "(v-#)", "(end-(v*#))", "((#-v)-end)", "(#/v)",
            "(v<#)", "(#>v)"]
 NVMENU2 = 4
@@ -276,10 +293,15 @@ def slice_compiled(kind, r, args):
         if kind == "P" and r == 6:
             return all(k != "A" or j == r - 1 for j, (k, _) in enumerate(parts))
         return True
-    if len(rich) > 1 or kind != "P":
+    if len(rich) > 1:
         return False
     j = rich[0]
     k, inf = parts[j][0], infos[j]
+    if all(kk == "S" for kk, _ in parts):
+        # element access: one rich scalar in any position, every kind of object
+        return inf[0][1] is not None and inf[0][1] < ELMENU[r]
+    if kind != "P":
+        return False
     lim = XMENU[r]
     if k == "S":
         ok = inf[0][1] is not None and inf[0][1] < lim
@@ -355,13 +377,26 @@ def oracle_apply(v, w, checked, kind="P"):
     r = len(v.dims)
     op = w[0]
     const = False
-    if op.startswith("c") and op[1:] in ("slice", "subset", "idx", "T", "softlink", "permute", "diag", "subdiag", "reshape"):
+    if op.startswith("c") and op[1:] in ("slice", "subset", "idx", "T", "softlink", "permute", "permuteE", "permuteV", "diag", "subdiag", "reshape"):
         const, op = True, op[1:]
         if op not in CONST_OPS:
             return ("bad",)                 # permute, diag_vector, submatrix_on_diagonal, reshape have no const overload
     try:
         if r == 0:
             return ("bad",)
+        if kind in "EG":
+            # a FixedArray driven through its element accessors only: all-scalar operator(), rank 1 also operator[]
+            if not ((op == "slice" and len(w) == r + 1 and all(a.startswith("i:") for a in w[1:])) or (op == "idx" and r == 1)):
+                return ("bad",)
+        if op in ("permuteE", "permuteV"):
+            # permute(const ExpressionSize<Rank>&) = permute(&idim[0]); permute(i0,i1,..) (ranks 2..6): "Incorrect number of
+            # dimensions provided to permute" (invalid_dimension) when an argument is -1, then permute(idim)
+            p = [int(x) for x in w[1:]]
+            if len(p) != r or (op == "permuteV" and not 2 <= r <= 6):
+                return ("bad",)
+            if op == "permuteV" and -1 in p:
+                return ("err", "invalid_dimension")
+            op = "permute"
         if op == "slice" or op == "subset":
             args = w[1:]
             if op == "subset":
@@ -854,6 +889,11 @@ def judge_view(v, line, vol, whole=True):
 
 
 FIXED_MENU = ([4], [3, 4], [3, 3], [2, 3, 4], [2, 3, 4, 5])      # the FixedArray<int,false,...> parents compiled into the harness
+# FixedArrays driven through their ELEMENT accessors only: passive rank 4..6 (kind E), ACTIVE rank 1..4 (kind G)
+FIXED_ELEM_MENU = ([3, 2, 5, 4], [2, 3, 1, 4, 5], [3, 1, 4, 2, 6, 5])
+FIXED_ACTIVE_MENU = ([4], [3, 4], [2, 3, 4], [3, 2, 5, 4])
+PARENT_WORDS = ("parent", "aparent", "fparent", "efparent", "afparent")
+KIND_NAME = {"P": "passive", "A": "active", "F": "fixedarray", "E": "fixedarray_elements", "G": "active_fixedarray_elements"}
 FIXED_T_IS_VIEW = [False]                          # set by run() from fixed_T_probes()
 SIG_FIXED_T = "fixedarray-T-returns-copy"
 
@@ -869,6 +909,12 @@ def parent_of(w):
         if w[0] == "fparent":
             dims = [int(x) for x in w[1:]]
             return ("F", parent_view("rm", dims)) if dims in FIXED_MENU else None
+        if w[0] == "efparent":
+            dims = [int(x) for x in w[1:]]
+            return ("E", parent_view("rm", dims)) if dims in FIXED_ELEM_MENU else None
+        if w[0] == "afparent":
+            dims = [int(x) for x in w[1:]]
+            return ("G", parent_view("rm", dims)) if dims in FIXED_ACTIVE_MENU else None
     except ValueError:
         pass
     return None
@@ -881,7 +927,7 @@ def oracle(lines_in, lines_out, checked, limit=None):
     v, vol, last, kind = None, 0, None, "P"
     for i, (op, out) in enumerate(zip(lines_in, lines_out)):
         w = op.split()
-        if w[0] in ("parent", "aparent", "fparent"):
+        if w[0] in PARENT_WORDS:
             pk = parent_of(w)
             if pk is None:
                 if out != "bad-op":
@@ -889,13 +935,13 @@ def oracle(lines_in, lines_out, checked, limit=None):
                 continue
             kind, v = pk
             vol = len(v.cells)
-            msg = judge_view(v, out, vol, whole=(kind != "F"))
+            msg = judge_view(v, out, vol, whole=(kind not in "FEG"))
             if msg:
                 return i, "fresh parent: " + msg
             last = parse_line(out)
             continue
         if w[0] == "contig":
-            if v is None or v.null or not v.dims or kind == "F":
+            if v is None or v.null or not v.dims or kind in "FEG":
                 exp = "bad-op"
             else:
                 # is_contiguous() <=> the offsets the implementation itself reported are the packed row-major ones
@@ -951,8 +997,10 @@ def oracle(lines_in, lines_out, checked, limit=None):
                     return i, "%s: %s" % (w[0], msg)
             v = res[1]
             last = parse_line(out)
-            if kind == "F":
+            if kind in "FE":
                 kind = "P"         # the view returned by a FixedArray member is an ordinary Array
+            if kind == "G":
+                kind = "A"
             if kind == "A" and w[0] in ("softlink", "csoftlink"):
                 # an active array without Storage cannot be sliced further (invalid_operation, not a view): nothing to judge
                 if limit is not None:
@@ -1050,7 +1098,7 @@ def vexpr_token(rng, targets, L, ids, stats=None):
 
 
 class Gen:
-    def __init__(self, rng, checked, malformed, depth, stats, contig=False, maxrank=6, pbad=0.3, w_ix=5, kinds="PPPPPPPPAF"):
+    def __init__(self, rng, checked, malformed, depth, stats, contig=False, maxrank=6, pbad=0.3, w_ix=5, kinds="PPPPPPPPPPPPPPPPAAFFEG"):
         self.rng, self.checked, self.malformed, self.depth, self.stats = rng, checked, malformed, depth, stats
         self.contig, self.maxrank, self.pbad, self.w_ix, self.kinds = contig, maxrank, pbad, w_ix, kinds
         # ranks of the parent: mostly low in the valid streams (more operations apply), uniform in the malformed one
@@ -1060,6 +1108,8 @@ class Gen:
         self.p_const = 0.5         # a member with a const overload is called through it
         self.p_empty = 0.09        # a range / stride argument selects nothing (zero extent, in whatever position)
         self.p_element = 0.07      # an operator() call has only scalar arguments (element access, ends the composition)
+        self.p_rich_element = 0.5  # ... and one of its arguments (any position) is written as `end` arithmetic
+        self.p_permute_form = 0.4  # permute goes through permute(ExpressionSize) / permute(i0,i1,..) instead of permute(const Index*)
 
     def count(self, key):
         self.stats[key] = self.stats.get(key, 0) + 1
@@ -1072,6 +1122,10 @@ class Gen:
             dims = list(rng.choice(FIXED_MENU))
             self.count("parent_fixed_rank_%d" % len(dims))
             return "fparent " + " ".join(map(str, dims)), parent_view("rm", dims), "F"
+        if kind in "EG":
+            dims = list(rng.choice(FIXED_ELEM_MENU if kind == "E" else FIXED_ACTIVE_MENU))
+            self.count("parent_%s_rank_%d" % (KIND_NAME[kind], len(dims)))
+            return ("efparent " if kind == "E" else "afparent ") + " ".join(map(str, dims)), parent_view("rm", dims), kind
         r = rng.choice(self.ranks) if kind == "P" else rng.choice([1, 2, 2, 3])
         cap = 240 if r <= 2 else 160
         while True:
@@ -1098,6 +1152,8 @@ class Gen:
         (roles: scalar / begin / end / begin and end / stride, as far as compiled for this rank); None if not possible"""
         rng = self.rng
         r = len(dims)
+        if all(a.startswith("i:") for a in args):
+            return self.enrich_element(args, dims)
         if kind != "P":
             return None
         if r >= 3 and all(d > 0 for d in dims) and rng.random() < 0.5:
@@ -1150,6 +1206,25 @@ class Gen:
                 pass
         return None
 
+    def enrich_element(self, args, dims):
+        """element access: ONE argument, in a random position, rewritten as `end` arithmetic with the same value (every kind
+        of object; harness/drv_views_el.h); None if no shape gives the value"""
+        rng = self.rng
+        r = len(dims)
+        cand = list(range(r))
+        rng.shuffle(cand)
+        for j in cand:
+            try:
+                t = rich_token(rng, tok(args[j][2:], dims[j]), dims[j], ELMENU[r], self.stats, "element")
+            except (ValueError, Undef):
+                t = None
+            if t is not None:
+                out = list(args)
+                out[j] = "i:" + t
+                self.count("rich_element_rank_%d_pos_%d" % (r, j))
+                return out
+        return None
+
     def enrich_tokens(self, toks, lens, kind, r, what):
         """subset / operator[]: one token rewritten as a rich expression"""
         if kind != "P" or r > 2:
@@ -1171,7 +1246,12 @@ class Gen:
         rng = self.rng
         w = text.split()
         r = len(v.dims)
-        if rng.random() < self.p_rich:
+        if w[0] == "slice" and all(a.startswith("i:") for a in w[1:]):
+            if rng.random() < self.p_rich_element:
+                out = self.enrich_element(w[1:], v.dims)
+                if out:
+                    w = ["slice"] + out
+        elif rng.random() < self.p_rich:
             if w[0] == "slice":
                 out = self.enrich_slice(w[1:], v.dims, kind)
                 if out:
@@ -1184,6 +1264,9 @@ class Gen:
                 out = self.enrich_tokens(w[1:], [v.dims[0]], kind, r, "idx")
                 if out:
                     w = ["idx"] + out
+        if w[0] == "permute" and rng.random() < self.p_permute_form:
+            w[0] = "permuteV" if (2 <= r <= 6 and rng.random() < 0.5) else "permuteE"
+            self.count("permute_overload_" + w[0])
         if w[0] in CONST_OPS and rng.random() < self.p_const and not (w[0] == "idx" and kind == "F" and r > 1):
             w[0] = "c" + w[0]
             self.count("const_" + kind_of_op)
@@ -1244,6 +1327,22 @@ class Gen:
         rng = self.rng
         r = len(v.dims)
         bad = self.malformed and rng.random() < self.pbad
+        if okind in "EG":
+            # only the element accessors of these objects are driven
+            self.count("element_access_rank_%d_on_%s" % (r, KIND_NAME[okind]))
+            if r == 1 and rng.random() < 0.4:
+                if bad and self.checked:
+                    x, side = self.bad_index(v.dims[0])
+                    self.count("malformed_idx_" + side)
+                    return "idx " + x, "idx"
+                return "idx " + self.E(rng.randrange(v.dims[0]), v.dims[0]), "idx"
+            args = ["i:" + self.E(rng.randrange(L), L) for L in v.dims]
+            if bad and self.checked:
+                j = rng.randrange(r)
+                x, side = self.bad_index(v.dims[j])
+                args[j] = "i:" + x
+                self.count("malformed_slice_pos%d_scalar_%s" % (j, side))
+            return "slice " + " ".join(args), "slice"
         choices = ["slice"] * 8 + ["subset"] * 2 + ["idx"] * 2 + ["softlink"] * (0 if okind == "F" else 1) + ["permute"] * (2 if r > 1 else 1)
         if r == 2:
             square = v.dims[0] == v.dims[1]
@@ -1265,7 +1364,7 @@ class Gen:
                 # element access: every argument a scalar, per position an int or end-k
                 args = ["i:" + self.E(rng.randrange(L), L) for L in v.dims]
                 kinds = ["scalar"] * r
-                self.count("element_access_rank_%d_on_%s" % (r, {"P": "passive", "A": "active", "F": "fixedarray"}[okind]))
+                self.count("element_access_rank_%d_on_%s" % (r, KIND_NAME[okind]))
             elif all(k == "scalar" for k in kinds) and rng.random() < 0.85:
                 j = rng.randrange(r)
                 args[j] = "_"; kinds[j] = "all"
@@ -1531,7 +1630,7 @@ class Gen:
         """-> list of lines (parent first)"""
         line, v, okind = self.parent()
         lines = [line]
-        if self.contig and okind != "F":
+        if self.contig and okind not in "FEG":
             lines.append("contig")
         depth = self.rng.randint(1, self.depth)
         n = 0
@@ -1564,7 +1663,7 @@ class Gen:
                 continue
             lines.append(text)
             self.count("op_" + kind)
-            self.count("op_on_" + {"P": "passive", "A": "active", "F": "fixedarray"}[okind])
+            self.count("op_on_" + KIND_NAME[okind])
             if res[0] == "err":
                 self.count("error_" + res[1])
             elif res[0] == "null":
@@ -1578,8 +1677,10 @@ class Gen:
                     if v.cells[-1] - v.cells[-2] != 1:
                         self.count("receiver_last_stride_%s" % ("negative" if v.cells[-1] < v.cells[-2] else "non_unit"))
                 v = res[1]
-                if okind == "F":
+                if okind in "FE":
                     okind = "P"
+                if okind == "G":
+                    okind = "A"
                 if okind == "A" and kind == "softlink":
                     # a soft link of an ACTIVE array cannot be sliced further (the view constructor raises
                     # invalid_operation for an active array without Storage): the composition ends here
@@ -2094,13 +2195,17 @@ def zero_extent_sweep():
     return out
 
 
-def element_sweep(checked):
-    """ELEMENT access A(i0,..,ir-1) with only scalar arguments, every argument passed as written (per position a plain int
-    or end-k): for passive Arrays of rank 1..6 (row-major; column-major to rank 4), active Arrays of rank 1..3 and
-    FixedArrays of rank 1..4, all with PAIRWISE DIFFERENT extents (an index resolved against the length of another
-    dimension then names another element or is wrongly range-tested), every position x {int, end-k} x {0, middle, last
-    index; bounds-checked build also n and -1, which must raise index_out_of_bounds} x {the other positions all ints /
-    all end-k / alternating} x {non-const, const accessor}.  One composition per case."""
+def element_sweep(checked, rng):
+    """ELEMENT access A(i0,..,ir-1) with only scalar arguments, every argument passed as written: for passive Arrays of
+    rank 1..6 (row-major; column-major to rank 4), active Arrays of rank 1..3, the FixedArray parents of rank 1..4, the
+    element-only FixedArrays of rank 4..6 (3x2x5x4, 2x3x1x4x5, 3x1x4x2x6x5) and the ACTIVE FixedArrays of rank 1..4, all with
+    PAIRWISE DIFFERENT extents (an index resolved against the length of another dimension then names another element or is
+    wrongly range-tested).
+    (a) every position x {int, end-k} x {0, middle, last index; bounds-checked build also n and -1, which must raise
+        index_out_of_bounds} x {the other positions all ints / all end-k / alternating} x {non-const, const accessor};
+    (b) every position x every compiled shape of `end` arithmetic (end, end/k, k-end, k/end, (end-k)/m; ranks 1-2 the first 8)
+        x {non-const, const}, value and neighbour pattern rotating; bounds-checked build also n and -1 through a rotating shape.
+    One composition per case."""
     out = []
     objects = []
     for r, dims in ((1, [5]), (2, [3, 4]), (3, [2, 3, 4]), (4, [2, 3, 4, 5]), (5, [1, 2, 3, 4, 5]), (6, [1, 2, 3, 4, 5, 6])):
@@ -2111,26 +2216,87 @@ def element_sweep(checked):
             objects.append(("aparent %s %s" % ("rm" if r != 2 else "cm", " ".join(map(str, dims))), dims))
         if r <= 4:
             objects.append(("fparent " + " ".join(map(str, dims if r > 1 else [4])), dims if r > 1 else [4]))
+    for dims in FIXED_ELEM_MENU:
+        objects.append(("efparent " + " ".join(map(str, dims)), list(dims)))
+    for dims in FIXED_ACTIVE_MENU:
+        objects.append(("afparent " + " ".join(map(str, dims)), list(dims)))
+
+    def others(dims, j, pat, x):
+        args = []
+        for k in range(len(dims)):
+            f = pat if pat != "alt" else ("end" if (k + j) % 2 else "int")
+            val = (k + 2 * j + x) % dims[k]
+            args.append("i:" + (str(val) if f == "int" else "e%d" % (dims[k] - 1 - val)))
+        return args
+    n = 0
     for head, dims in objects:
         r = len(dims)
+        pats = ("int", "end", "alt") if 2 <= r <= 4 else (("int", "end") if r > 1 else ("int",))
         for j in range(r):
             L = dims[j]
-            vals = sorted(set([0, L // 2, L - 1])) + ([L, -1] if checked else [])
+            good = sorted(set([0, L // 2, L - 1]))
+            vals = good + ([L, -1] if checked else [])
             for form in ("int", "end"):
                 for x in vals:
-                    for pat in (("int", "end", "alt") if r <= 4 else ("int", "end")):
-                        if r == 1 and pat != "int":
-                            continue
-                        args = []
-                        for k in range(r):
-                            if k == j:
-                                f, val = form, x
-                            else:
-                                f = pat if pat != "alt" else ("end" if (k + j) % 2 else "int")
-                                val = (k + 2 * j + x) % dims[k]
-                            args.append("i:" + (str(val) if f == "int" else "e%d" % (dims[k] - 1 - val)))
+                    for pat in pats:
+                        args = others(dims, j, pat, x)
+                        args[j] = "i:" + (str(x) if form == "int" else "e%d" % (L - 1 - x))
                         for prefix in ("", "c"):
                             out.append([head, prefix + "slice " + " ".join(args)])
+            # (b) `end` arithmetic in this position
+            shapes = list(range(min(ELMENU[r], 8)))
+            for prefix in ("", "c"):
+                for sh in shapes:
+                    for att in range(len(good)):
+                        n += 1
+                        x = good[(n + att) % len(good)]
+                        c = solve_shape(rng, XSHAPES[sh], x, L - 1)
+                        if c is not None:
+                            args = others(dims, j, pats[n % len(pats)], x)
+                            args[j] = "i:" + px_fill(XSHAPES[sh], c)
+                            out.append([head, prefix + "slice " + " ".join(args)])
+                            break
+                if checked:
+                    for x in (L, -1):
+                        for att in range(len(shapes)):
+                            n += 1
+                            sh = shapes[(n + att) % len(shapes)]
+                            c = solve_shape(rng, XSHAPES[sh], x, L - 1)
+                            if c is not None:
+                                args = others(dims, j, pats[n % len(pats)], x)
+                                args[j] = "i:" + px_fill(XSHAPES[sh], c)
+                                out.append([head, prefix + "slice " + " ".join(args)])
+                                break
+    # rank-1 operator[] of the element-only objects (FixedArray rank 1: its own accessor pair, active and passive)
+    for head, L in (("afparent 4", 4), ("fparent 4", 4)):
+        for x in [0, 1, 3] + ([4, -1] if checked else []):
+            for t in (str(x), "e%d" % (L - 1 - x)):
+                for prefix in ("", "c"):
+                    out.append([head, prefix + "idx " + t])
+    return out
+
+
+def permute_overload_sweep():
+    """the three overloads of permute -- permute(const Index*), permute(const ExpressionSize<Rank>&), permute(i0,i1,..) -- of
+    Array (passive ranks 1..6, active 2..3) and FixedArray (ranks 2..4): a cyclic and a reversing permutation each, a repeated
+    dimension, an out-of-range dimension and (separate arguments) a -1 among the arguments; on a strided receiver too"""
+    out = []
+    objs = [("parent rm 2 3", 2), ("parent cm 2 3 4", 3), ("parent rm 2 3 2 2", 4), ("parent rm 1 2 3 2 2", 5), ("parent rm 2 1 2 3 1 2", 6),
+            ("aparent rm 2 3", 2), ("aparent rm 2 3 4", 3), ("fparent 3 4", 2), ("fparent 2 3 4", 3), ("fparent 2 3 4 5", 4), ("parent rm 6", 1)]
+    for head, r in objs:
+        cyc = list(range(1, r)) + [0]
+        rev = list(reversed(range(r)))
+        bads = []
+        if r >= 2:
+            bads = [[0] * r, rev[:-1] + [r], rev[:-1] + [-1], [-1] + rev[1:]]
+        for form in ("permute", "permuteE", "permuteV"):
+            if form == "permuteV" and r < 2:
+                continue
+            for p in [cyc, rev] + bads:
+                out.append([head, "%s %s" % (form, " ".join(map(str, p)))])
+            if head.startswith("parent") and r >= 2:
+                pre = "slice " + " ".join(["s:e0,0,-1"] + ["_"] * (r - 1)) if r < 6 else "slice " + " ".join(["s:e0,0,-1"] + ["r:0,e0"] * (r - 2) + ["_"])
+                out.append([head, pre, "%s %s" % (form, " ".join(map(str, cyc)))])
     return out
 
 
@@ -2160,7 +2326,7 @@ def signature_of(err, lines=None, nout=None, checked=False):
         v, kind = None, "P"
         for l in lines[:nout]:
             w = l.split()
-            if w[0] in ("parent", "aparent", "fparent"):
+            if w[0] in PARENT_WORDS:
                 pk = parent_of(w)
                 if pk is not None:
                     kind, v = pk
@@ -2170,7 +2336,7 @@ def signature_of(err, lines=None, nout=None, checked=False):
                     return None
                 if res[0] == "ok":
                     v = res[1]
-                    kind = "P" if kind == "F" else kind
+                    kind = "P" if kind in "FE" else ("A" if kind == "G" else kind)
                 elif res[0] == "null":
                     v = OV([0], [], null=True)
         res = oracle_ix(v, lines[nout].split(), checked, kind)
@@ -2353,7 +2519,9 @@ def run(ctx, replay):
         "int family or end-k family per call for ranks 3-6 / active / FixedArray, rank 6 with __ in the last position only; "
         "`end` arithmetic: XSHAPES in one argument per call, passive arrays); active arrays: ranks 1..3, no "
         "integer-vector indexing; FixedArray parents: 4, 3x4, 3x3, 2x3x4, 2x3x4x5; element access (only scalar arguments): every "
-        "mixture of int / end-k per position for every kind of object",
+        "mixture of int / end-k per position for every kind of object, one `end`-arithmetic argument per call (ranks 5-6: "
+        "the other arguments then all int or all end-k); FixedArrays of rank 5-6 and ACTIVE FixedArrays (ranks 1..4) are "
+        "driven through their element accessors only (rank-7 Array / FixedArray cannot be instantiated in the pinned tree)",
         "a selection without elements is an empty array with ALL extents zero (candidate repair F-76 of the two view "
         "constructors of Array, following Array::resize; the documentation does not give the extents of an empty selection); "
         "IndexedArray selections (op ix) keep per-dimension extents (IndexedArray::empty() tests every dimension); maxval "
@@ -2409,9 +2577,13 @@ def run(ctx, replay):
     for mode in ("unchecked", "checked"):
         lab = "default" if mode == "unchecked" else "bounds-checking"
         run_batch(ctx, exes[mode], mode, zsw, lab + "/zero-extent-sweep")
-        esw = element_sweep(mode == "checked")
+        esw = element_sweep(mode == "checked", ctx.rng)
         ctx.notes["element_access_sweep_cases_" + mode] = len(esw)
         run_batch(ctx, exes[mode], mode, esw, lab + "/element-access-sweep")
+    psw = permute_overload_sweep()
+    ctx.notes["permute_overload_sweep_cases"] = len(psw)
+    for mode in ("unchecked", "checked"):
+        run_batch(ctx, exes[mode], mode, psw, ("default" if mode == "unchecked" else "bounds-checking") + "/permute-overload-sweep")
     sysm = systematic_malformed()
     ctx.notes["systematic_malformed_cases"] = len(sysm)
     run_batch(ctx, exes["checked"], "checked", sysm, "bounds-checking/systematic")
@@ -2444,14 +2616,17 @@ def run(ctx, replay):
         for c in empty_extent_probes():
             run_batch(ctx, exes[mode], mode, [c], ("default" if mode == "unchecked" else "bounds-checking") + "/indexed-empty-extent")
     ctx.notes["distribution"] = dict(sorted(stats.items()))
-    ctx.cov["rule"] = ("compositions = parent (passive Array<r,int> r = 1..6 80%%, active Array<r,double,true> r = 1..3 10%%, "
-                       "FixedArray 10%%; row- or column-major, volume <= 240) followed by 1..%d view-forming "
+    ctx.cov["rule"] = ("compositions = parent (passive Array<r,int> r = 1..6 73%%, active Array<r,double,true> r = 1..3 9%%, "
+                       "FixedArray 9%%, element-only FixedArray rank 4..6 4.5%%, element-only ACTIVE FixedArray rank 1..4 4.5%%; row- or "
+                       "column-major, volume <= 240 (element-only rank 6: 720)) followed by 1..%d view-forming "
                        "operations drawn from slice(int/end-k/range/stride(+/-)/__), subset, operator[], T, permute, diag_vector, "
                        "submatrix_on_diagonal, reshape, soft_link, and (passive ranks 1..4) integer-vector indexing A(S0,..) with "
                        "scalar/end-k/range/__/intVector/integer-expression selectors read and assigned through; "
                        "every range / stride argument selects NOTHING with probability 0.09 (empty range r:k+1,k or empty stride of "
                        "either sign: zero extent in whatever position; the composition continues on the empty view), an operator() "
-                       "call is an element access (only scalars, int / end-k per position) with probability 0.07; after every "
+                       "call is an element access (only scalars, int / end-k per position, with probability 1/2 one of them as `end` arithmetic) "
+                       "with probability 0.07 (always on the element-only objects); permute goes through permute(ExpressionSize) / "
+                       "permute(i0,i1,..) with probability 0.4; after every "
                        "operation the view is exercised through the whole-view operations V = c, V += c, B = V, V = B*2+3, move "
                        "assignment, sum, maxval, where, count/find; "
                        "every operation "
@@ -2465,7 +2640,9 @@ def run(ctx, replay):
                        "bounds-checked build, %d with out-of-range values injected per argument position on the bounds-checked "
                        "build, %d with is_contiguous() probed after every step; plus the directed sweeps (const overloads on "
                        "strided/reversed/offset receivers for every rank and kind of object; zero-extent selector x rank 1..6 x position x "
-                       "neighbour kind x kind of object; element access x rank x position x int/end-k x value x const; every `end`-arithmetic shape x role x "
+                       "neighbour kind x kind of object; element access x class (Array passive/active, FixedArray passive/active) x rank x position x "
+                       "int/end-k/every compiled `end`-arithmetic shape x value (bounds-checked build: also n and -1) x const; the three "
+                       "permute overloads x rank x class; every `end`-arithmetic shape x role x "
                        "position; every integer-vector expression x partner; every index-vector layout x pattern x position for ranks 1..4; counts in the notes); non-trivial = at least two "
                        "operations; distinct = different (mode, op list)" % (depth, n_valid, n_valid_chk, n_malf, n_contig))
     ctx.cov["exhaustive"] = False
